@@ -1762,12 +1762,11 @@ theorem Spec.SplitsTo.mem_of_mem {isSep : Str → Bool} {s : Str} {L : List Str}
 theorem fcbAux_concat (level : Nat) (acc pending s : Str) :
     (fcbAux level acc pending s).1 ++ (fcbAux level acc pending s).2 = acc ++ pending ++ s := by
   fun_induction fcbAux level acc pending s with
-  | case1 level pending => simp
-  | case2 level acc pending h => simp
-  | case3 level acc pending r ih => rw [ih]; simp
-  | case4 level acc pending r hc hl => simp
-  | case5 level acc pending r hc hl ih => rw [ih]; simp
-  | case6 level acc pending c r hc hc' ih => rw [ih]; simp
+  | case1 level acc pending => simp
+  | case2 level acc pending r ih => rw [ih]; simp
+  | case3 level acc pending r hc hl => simp
+  | case4 level acc pending r hc hl ih => rw [ih]; simp
+  | case5 level acc pending c r hc hc' ih => rw [ih]; simp
 
 theorem findClosingBrace_length (s : Str) : (findClosingBrace s).2.length ≤ s.length := by
   have := congrArg List.length (fcbAux_concat 1 [] [] s)
